@@ -459,6 +459,9 @@ Theorem C11_refresh_not_triggered : forall fstr numeq fhex ro hs l pit c pn T,
   l_data l = data_result fhex numeq ro pn c T -> (0 < c)%nat ->
   filter (in_class (o_mcase ro) k_stop) (s_items (l_well (hs_las hs))) = [pit] ->
   stop_agreesb fstr numeq fhex ro pit T = true -> index_reflb numeq fhex T = true ->
+  (* added with audit item A5: the writer model now raises (IndexError of `las.index`) when
+     index_initial is set and there is no curve; the hypothesis excludes exactly that case *)
+  s_items (l_curves l) <> [] ->
   need_of numeq (mkmlas l (Some (nth 0%nat (l_data l) []))) = Some false.
 Proof. exact second_need. Qed.
 
